@@ -105,3 +105,19 @@ pub fn execute(s: &ShapeScn) -> RunOutcome {
     stats.set("shapes", h.0);
     RunOutcome { violation: viol, stats }
 }
+
+/// batch-level report for the evidence file: which catalogue was compiled in
+pub fn finalize(_tables: &std::collections::BTreeMap<String, Vec<u64>>, _prop: &str) -> (Option<Violation>, serde_json::Value) {
+    let env = crate::shapes_gen::catalogue_env();
+    let mkt = crate::shapes_gen::catalogue_mkt();
+    let summary = |c: &[ShapeEntry]| {
+        serde_json::json!({
+            "shapes": c.len(),
+            "nested": c.iter().filter(|e| e.nested).count(),
+            "with_repeated_types": c.iter().filter(|e| e.repeated_types).count(),
+            "fields_histogram": (1..=8).map(|k| c.iter().filter(|e| e.fields == k).count()).collect::<Vec<_>>(),
+            "max_leaves": c.iter().map(|e| e.leaves).max().unwrap_or(0),
+        })
+    };
+    (None, serde_json::json!({"catalogue_seed": crate::shapes_gen::CATALOGUE_SEED, "per_macro": crate::shapes_gen::CATALOGUE_COUNT_PER_MACRO, "AgentSet": summary(&env), "MarketAgentSet": summary(&mkt)}))
+}
